@@ -122,6 +122,31 @@ theorem presence_stats_cmd_eq_node (p : Presence) (ch : String) (hc : ch ≠ "")
   simp only [presenceStatsCmd, hc, nodePresenceStats, Bool.not_true, Bool.false_eq_true, if_false]
   congr 2 <;> (apply Nat.mod_eq_of_lt; omega)
 
+/-- **distinct effective filters ⇒ distinct single-flight keys**: two history calls share an
+in-flight result only when channel, since, limit, direction and meta TTL all agree — so sharing
+cannot hand a caller the result of another filter (in particular not of another limit). -/
+theorem historyKey_injective (ch ch' : String) (f f' : Filter) (m m' : Nat)
+    (h : historyKey ch f m = historyKey ch' f' m') : ch = ch' ∧ f = f' ∧ m = m' := by
+  obtain ⟨s, l, r⟩ := f
+  obtain ⟨s', l', r'⟩ := f'
+  simp only [historyKey, HistoryKey.mk.injEq] at h
+  obtain ⟨h1, h2, h3, h4, h5⟩ := h
+  refine ⟨h1, ?_, h5⟩
+  subst h3; subst h4
+  have : s = s' := by
+    cases s with
+    | none => cases s' with
+      | none => rfl
+      | some p => simp at h2
+    | some p => cases s' with
+      | none => simp at h2
+      | some p' =>
+        obtain ⟨o, e⟩ := p; obtain ⟨o', e'⟩ := p'
+        simp at h2; obtain ⟨ho, he⟩ := h2; subst ho; subst he; rfl
+  subst this; rfl
+
+example : historyKey "a" { limit := 0 } 0 ≠ historyKey "a" { limit := -1 } 0 := by decide
+
 /-! Non-vacuity -/
 example : (effFilter 2 { channel := "a", limit := -1 }).limit = 2 := by decide
 example : (effFilter 2 { channel := "a", limit := 7 }).limit = 2 := by decide
